@@ -1,6 +1,6 @@
 (* C07 - Clones are faithful, self-contained and independent of the original. Property theorems only. *)
 From Coq Require Import List.
-From SV Require Import Base.Base IR.State IR.NS IR.Ops Xform.Clone Proofs.CloneSmall Proofs.C01_full Proofs.CloneFrame Proofs.CloneStart.
+From SV Require Import Base.Base IR.State IR.NS IR.Ops Xform.Clone Proofs.CloneSmall Proofs.C01_full Proofs.Inv1a Proofs.Inv2a Proofs.CloneFrame Proofs.CloneStart Proofs.UniqInv.
 Import ListNotations.
 
 (* cloning a wire: one fresh element, no pins listed, nothing else changes *)
@@ -53,6 +53,33 @@ Proof.
   - intros x rl c Hx Hc. apply (K x rl c Hx Hc).
 Qed.
 Print Assumptions C07_full.
+
+(* "the copy is a well-formed structure": in every state reachable by editing calls, a completed
+   Definition.clone leaves every container - of the original design and of the copy - listing exactly
+   the elements that name it as parent, once, and every definition listing exactly the instances that
+   reference it, once: the copied child instances are registered with the definitions they reference,
+   and the copy itself is referenced by nothing. (The implementation's Definition.clone is the
+   building block of uniquify; the other roots are covered by the frame/closure theorems above and by
+   the correspondence runs.) *)
+Theorem C07_definition_clone_well_formed : forall ops d,
+  let s := run ops init in
+  d < next s -> snd (fst (clone_definition s d)) = None ->
+  Inv1a (fst (fst (clone_definition s d))) /\ Inv2a (fst (fst (clone_definition s d))).
+Proof. exact clone_definition_reachable. Qed.
+Print Assumptions C07_definition_clone_well_formed.
+
+(* non-vacuity of the hypotheses: a cell with a wired child instance is cloned; the copy's child (11)
+   references the same leaf cell and is registered with it next to the original child (6) *)
+Example C07_definition_clone_sample :
+  let ops := [ ONew KNetlist None []; OCreate RLibs 0 None [] 0 None; OCreate RDefs 1 None [] 0 None;
+               OCreate RPorts 2 None [] 1 None; OCreate RDefs 1 None [] 0 None; OCreate RChildren 5 None [] 0 (Some 2);
+               OCreate RCables 5 None [] 1 None; OConnect 8 (POut 6 4) None ] in
+  let s := run ops init in
+  let r := clone_definition s 5 in
+  next s = 9 /\ snd (fst r) = None /\ snd r = 9 /\ kids (fst (fst r)) RChildren 9 = [12] /\
+  iref (fst (fst r)) 12 = Some 2 /\ drefs (fst (fst r)) 2 = [6; 12] /\ drefs (fst (fst r)) 9 = [] /\
+  wpins (fst (fst r)) 11 = [POut 12 4].
+Proof. vm_compute. repeat split. Qed.
 
 (* non-vacuity: a netlist with a leaf cell, a top cell instantiating it through a wired outer pin and a
    top instance; its clone is a second netlist whose links all stay inside the copy *)
